@@ -422,6 +422,9 @@ fn build_enum(
 
     let syn_fields = fields.iter().enumerate().map(|(idx, (name, value))| {
         let name_ident = str_to_ident(name);
+        // Emit the value with a fixed-width suffix: an `isize` literal is truncated to
+        // 32 bits when the generated code is compiled for a 32-bit target.
+        let value = *value as i64;
         let field = quote! {
             #name_ident = #value as _
         };
